@@ -3,38 +3,52 @@
 spec  : ToGrid.tla (TABresult.to_grid / find_grid / K__Result.to_grid / get_component as operators shaped like the code +
         the loop-free statement of the property), MC_ToGrid (loop of to_grid over the k-points; sensitivity switch
         SlotFormula), MC_Component (every small tensor x every component specification)
-bind  : every finished TLC state is replayed on real TABresult / KBandResult objects with integer data (to_grid, get_data,
-        find_grid, self_to_grid, get_component) and compared exactly; seeded random calls are recorded and validated by
-        TLC against ToGridRec.tla
-end-to-end (numeric): run() with TabulatorAll(mode="grid") for the factorisations (NKdiv, NKFFT) TLC lists for a grid, with
-        and without symmetry reduction, against evaluate_k at every grid point (tolerance 1e-8).
+bind  : finished TLC states are replayed on real TABresult / KBandResult objects with integer data (to_grid, get_data,
+        find_grid, self_to_grid, get_component, get_component_list) and compared exactly; seeded random calls are recorded
+        and validated by TLC against ToGridRec.tla.  Only what the statement of C30 names decides: every grid point once, in
+        C order, with its own values; components = algebra on the tensor.  Internal details (value of find_grid on
+        incomplete point sets, how a missing grid point is signalled, which of several equal images is taken, the
+        exception class for a component that does not exist) are information.
+end-to-end (numeric): run() with TabulatorAll(mode="grid") for factorisations (NKdiv, NKFFT) TLC lists for a grid, with
+        and without symmetry reduction (tetragonal, hexagonal, time reversal), against evaluate_k at every grid point
+        (tolerance 1e-8).
 """
 import copy
 import math
 import os
 import random
-import shutil
 import re
 import warnings
 
 import numpy as np
 
 from .. import tlc, ftable, tlaparse
-from ..common import Report, MachineryError, seed, quiet, workdir
+from ..common import Report, MachineryError, seed, quiet
 from . import _c2930_util as U
 
 PROPS = {
     "C30": dict(level="model_checking",
-                technique="TLC exhaustive on ToGrid.tla (loop-level transcription of TABresult.to_grid + K__Result.to_grid vs the loop-free statement: slot bijection onto C order, own values, averaging of images, missing point = error, find_grid; get_component as algebra on integer tensors) + replay of every finished TLC state on real TABresult/KBandResult objects + TLC validation of recorded calls; numeric comparison of run(TabulatorAll, grid) with evaluate_k point by point",
+                technique="TLC exhaustive on ToGrid.tla (loop-level transcription of TABresult.to_grid + K__Result.to_grid vs the loop-free statement: slot bijection onto C order, own values, a grid point without image has no value, find_grid recovers a complete grid; get_component as algebra on integer tensors) + replay of finished TLC states on real TABresult/KBandResult objects + TLC validation of recorded calls; numeric comparison of run(TabulatorAll, grid) with evaluate_k point by point",
                 text="TLC enumerates grids (n_i <= 3, anisotropic), arrival orders (all permutations for tiny grids, C/F/reversed/rotated and "
-                     "every (NKdiv, NKFFT) factorisation order otherwise), duplicated, missing, shifted and off-grid points, and tensors of rank "
-                     "0..2 with every component specification; each state is executed on real TABresult/KBandResult objects built from integer "
-                     "data and compared exactly (to_grid, get_data in C order, find_grid, self_to_grid, get_component); random larger cases are "
-                     "recorded from the real code and validated by TLC. End to end, run() with TabulatorAll(mode='grid') is compared with "
-                     "evaluate_k at every grid point for every factorisation TLC lists, with and without symmetry reduction.",
+                     "every (NKdiv, NKFFT) factorisation order otherwise), duplicated (equal-valued images), missing, shifted and off-grid points, "
+                     "and tensors of rank 0..2 with every component specification of the domain CompOK. quick: every finished state is executed "
+                     "on real TABresult/KBandResult objects built from integer data (a third of the to_grid calls with 1e-12 noise on the "
+                     "k-points); thorough: every to_grid state and a seeded 3 % sample of the component states (all rank 0/1 and named ones). "
+                     "Compared: get_data in C order with own values and k-points (to_grid, self_to_grid), find_grid where the point set has "
+                     "every plane of the grid and no off-grid point, get_component for existing components, get_component_list of the real "
+                     "class. Random larger cases are recorded from the real code and validated by TLC. End to end, run() with "
+                     "TabulatorAll(mode='grid') (Energy, Berry curvature, velocity, inverse mass = rank 2) is compared with evaluate_k at "
+                     "every grid point: quick: 4 of the factorisations TLC lists for (2,2,3) / (3,3,1) per set-up (first, last, 2 seeded); "
+                     "thorough: all of them (axis-mixing rotations: those with NKdiv[0] = NKdiv[1]), grids up to (4,4,2); set-ups: no "
+                     "symmetry with random Wannier centres, AA and external terms; C4z+inversion; time reversal; hexagonal C6z; each "
+                     "symmetric one with and without use_irred_kpt/symmetrize.",
                 note="find_grid inputs whose 1/dk is exactly half-way between two integers are excluded by the named predicate FindGridTie; "
-                     "component specifications that do not name a component of the tensor (None/unknown name on rank >= 2, too few or too many "
-                     "indices on rank >= 2), for which the code fails with TypeError/KeyError or returns a slice, are outside CompOK",
+                     "component specifications that do not name a component of the tensor on rank >= 2 are outside CompOK. Information only "
+                     "(never a VIOLATION, the statement does not name them): value of find_grid on incomplete / off-grid point sets; a missing "
+                     "grid point may raise any exception or leave NaN in exactly the empty slots; images of one grid point carry equal values "
+                     "in all deciding cases (one case with different values is reported in info_duplicates); a component that does not exist "
+                     "may raise any exception (a returned value is counted as information); grid / gridorder attributes. Tabulation with "
+                     "adaptive refinement (adpt_num_iter > 0) is not part of the deciding cases.",
                 ref="DESIGN.md 3.2, 3.6"),
 }
 
@@ -43,6 +57,7 @@ GAP_MIN = 0.05                   # smallest band gap admitted in the numeric com
 XYZ = {"x": 0, "y": 1, "z": 2}
 BW = (1, -2)                     # integer weight of band b
 SC = ((1, -2), (3, 2))           # integer scale of (k-point, band) in the component tests
+NOISE = 1e-12                    # float noise put on near-grid k-points (symmetry transforms produce such k-points)
 
 
 # ---------------------------------------------------------------- real objects with integer data
@@ -55,9 +70,12 @@ def tensor_w(rank):
     return np.array([[1.0, 2.0, 3.0], [4.0, 5.0, 6.0], [7.0, 8.0, 9.0]])
 
 
-def make_tab(pts, M, vals, mode="grid"):
+def make_tab(pts, M, vals, mode="grid", noise=None):
+    """noise: numpy RandomState -> every coordinate is moved by at most NOISE"""
     from wannierberri.result import KBandResult, TABresult
     k = np.array(pts, dtype=float) / np.array(M, dtype=float)[None, :]
+    if noise is not None:
+        k = k + NOISE * (2 * noise.rand(*k.shape) - 1)
     v = np.array(vals, dtype=float)
     res = {}
     for name, rank in (("Energy", 0), ("vec", 1), ("ten", 2)):
@@ -66,55 +84,117 @@ def make_tab(pts, M, vals, mode="grid"):
     return TABresult(kpoints=k, recip_lattice=np.eye(3), results=res, mode=mode)
 
 
-def call_to_grid(tab, g, self_mode=False):
-    """returns (error name or '', result TABresult)"""
-    with quiet(), warnings.catch_warnings():
-        warnings.simplefilter("ignore")
-        try:
+def build_tab(rep, *a, **kw):
+    """the harness's own construction of a TABresult: a failure is never a VIOLATION"""
+    try:
+        with quiet():
+            return make_tab(*a, **kw)
+    except Exception as ex:
+        U.library_site(ex)
+        U.skipped(rep, "TABresult", ex)
+        return None
+
+
+def real_find_grid(tab):
+    fg = tab.find_grid
+    if callable(fg):
+        fg = fg()
+    return [int(x) for x in fg]
+
+
+def call_to_grid(rep, tab, g, self_mode=False):
+    """-> ("ok", TABresult on the grid) | ("raised", exception raised inside the package) | ("skipped", None)"""
+    try:
+        with quiet(), warnings.catch_warnings():
+            warnings.simplefilter("ignore")
             if self_mode:
                 tab.self_to_grid()
-                return "", tab
-            return "", tab.to_grid(np.array(g, dtype=int), order="C")
-        except ZeroDivisionError:
-            return "ZeroDivisionError", None
+                return "ok", tab
+            return "ok", tab.to_grid(np.array(g, dtype=int), order="C")
+    except Exception as ex:
+        if U.library_site(ex) is None:
+            U.skipped(rep, "self_to_grid" if self_mode else "to_grid", ex)
+            return "skipped", None
+        return "raised", ex
 
 
 def cmp_grid_result(res, g, exp, tol=1e-9):
-    """res: real TABresult on the grid; exp: per slot (sum, count). None if every get_data entry is the expected average"""
+    """res: real TABresult on the grid; exp: per slot (sum, count), count 0 = a grid point without image (must be NaN).
+    None if the k-points are the grid points in C order and every get_data entry is the expected value"""
     g = tuple(int(x) for x in g)
-    if res.grid is None or tuple(int(x) for x in res.grid) != g or res.gridorder != "C":
-        return f"grid attribute {res.grid} order {res.gridorder}"
-    kn = np.asarray(res.kpoints) * np.array(g)[None, :]
-    if kn.shape != (len(exp), 3) or np.abs(kn - np.rint(kn)).max() > tol:
-        return "k-points of the grid result are not grid points"
+    kn = np.asarray(res.kpoints, dtype=float) * np.array(g)[None, :]
+    if kn.shape != (len(exp), 3) or not np.all(np.isfinite(kn)) or np.abs(kn - np.rint(kn)).max() > tol:
+        return "k-points of the grid result are not the grid points"
     for s in range(len(exp)):
         i0, i1, i2 = s // (g[1] * g[2]), (s // g[2]) % g[1], s % g[2]
-        if [int(x) for x in np.rint(kn[s])] != [i0, i1, i2]:
-            return f"k-point of slot {s} is {res.kpoints[s].tolist()}, not {(i0, i1, i2)}/{g}"
+        if [int(x) % g[c] for c, x in enumerate(np.rint(kn[s]))] != [i0, i1, i2]:
+            return f"k-point of slot {s} is {np.asarray(res.kpoints)[s].tolist()}, not {(i0, i1, i2)}/{g}"
     with quiet():
-        E = res.get_data("Energy")
-        E1 = res.get_data("Energy", iband=1)
-        V = res.get_data("vec")
-        Vy = res.get_data("vec", component="y")
-        Tt = res.get_data("ten", component="trace")
-        Tzx = res.get_data("ten", component=(2, 0), iband=[1])
+        E = np.asarray(res.get_data("Energy"), dtype=float)
+        E1 = np.asarray(res.get_data("Energy", iband=1), dtype=float)
+        V = np.asarray(res.get_data("vec"), dtype=float)
+        Vy = np.asarray(res.get_data("vec", component="y"), dtype=float)
+        Tt = np.asarray(res.get_data("ten", component="trace"), dtype=float)
+        Tzx = np.asarray(res.get_data("ten", component=(2, 0), iband=[1]), dtype=float)
     shapes = dict(E=(E.shape, g + (2,)), E1=(E1.shape, g), V=(V.shape, g + (2, 3)), Vy=(Vy.shape, g + (2,)), Tt=(Tt.shape, g + (2,)), Tzx=(Tzx.shape, g + (1,)))
     for k, (a, b) in shapes.items():
         if tuple(a) != tuple(b):
             return f"get_data shape {k}: {a} instead of {b}"
     for s, (sm, cnt) in enumerate(exp):
         i0, i1, i2 = s // (g[1] * g[2]), (s // g[2]) % g[1], s % g[2]
+        allv = [E[i0, i1, i2, b] for b in range(2)] + [Vy[i0, i1, i2, b] for b in range(2)] + [Tt[i0, i1, i2, b] for b in range(2)] \
+            + [V[i0, i1, i2, b, c] for b in range(2) for c in range(3)] + [E1[i0, i1, i2], Tzx[i0, i1, i2, 0]]
+        if cnt == 0:
+            if not all(np.isnan(x) for x in allv):
+                return f"slot {s} = grid point {(i0, i1, i2)} has no image but carries values {[float(x) for x in allv[:2]]}"
+            continue
         avg = sm / cnt
         scale = max(1.0, abs(avg)) * 20
         for b in range(2):
             pairs = [(E[i0, i1, i2, b], avg * BW[b]), (Vy[i0, i1, i2, b], avg * BW[b] * 3), (Tt[i0, i1, i2, b], avg * BW[b] * 15)]
             pairs += [(V[i0, i1, i2, b, c], avg * BW[b] * tensor_w(1)[c]) for c in range(3)]
             for got, e in pairs:
-                if abs(got - e) > tol * scale:
+                if not abs(got - e) <= tol * scale:
                     return f"slot {s} = grid point {(i0, i1, i2)} band {b}: {got} instead of {e}"
-        if abs(E1[i0, i1, i2] - avg * BW[1]) > tol * scale or abs(Tzx[i0, i1, i2, 0] - avg * BW[1] * 7) > tol * scale:
+        if not abs(E1[i0, i1, i2] - avg * BW[1]) <= tol * scale or not abs(Tzx[i0, i1, i2, 0] - avg * BW[1] * 7) <= tol * scale:
             return f"slot {s} = grid point {(i0, i1, i2)}: iband selection returns another value"
     return None
+
+
+def grid_attr_info(rep, res, g):
+    """information: the attributes grid / gridorder of the result"""
+    try:
+        ok = tuple(int(x) for x in res.grid) == tuple(g) and res.gridorder == "C"
+    except Exception:
+        ok = False
+    U.info(rep, "info_grid_attributes", "grid_and_gridorder_as_specified" if ok else "other")
+
+
+def judge_grid(rep, site, status, res, g, out, detail):
+    """outcome of a to_grid / self_to_grid call against the specification's result `out` (err, data)"""
+    if status == "skipped":
+        return
+    if status == "raised":
+        if out["err"]:
+            U.info(rep, "info_missing_point", f"raises_{type(res).__name__}")
+        else:
+            rep.violation(f"raises:{site}:{type(res).__name__}", dict(detail, exception=repr(res)[:300], note="every grid point has an image"))
+        return
+    if out["err"]:
+        U.info(rep, "info_missing_point", "returns_a_result")
+    try:
+        bad = cmp_grid_result(res, g, out["data"])
+    except Exception as ex:
+        if U.library_site(ex) is None:
+            U.skipped(rep, "get_data", ex)
+            return
+        rep.violation(f"raises:get_data:{type(ex).__name__}", dict(detail, exception=repr(ex)[:300]))
+        return
+    if bad:
+        rep.violation(f"{site}:values" if not out["err"] else f"{site}:missing_point_has_value",
+                      dict(detail, what=bad, expected_sum_count=[list(x) for x in out["data"]]))
+    else:
+        grid_attr_info(rep, res, g)
 
 
 def py_component(comp, rng=None):
@@ -129,13 +209,15 @@ def py_component(comp, rng=None):
     return s
 
 
-def call_component(ndim, T, comp, how):
-    """the real get_component on data[ik, ib] = T * SC[ik][ib]; returns ('err', None) or ('ok', array (2, 2))"""
-    from wannierberri.result import kbandresult as KB
-    from wannierberri.result import KBandResult, TABresult
+def call_component(rep, ndim, T, comp, how):
+    """the real get_component on data[ik, ib] = T * SC[ik][ib]; -> ("ok", array (2, 2)) | ("shape", shape) |
+    ("raised", exception raised inside the package) | ("skipped", None)"""
     data = np.array(SC, dtype=float).reshape((2, 2) + (1,) * ndim) * np.array(T, dtype=float)[None, None]
     try:
-        with quiet():
+        from wannierberri.result import kbandresult as KB
+        from wannierberri.result import KBandResult, TABresult
+        with quiet(), warnings.catch_warnings():
+            warnings.simplefilter("ignore")
             if how == "function":
                 out = KB.get_component(data, ndim, comp)
             elif how == "method":
@@ -143,22 +225,22 @@ def call_component(ndim, T, comp, how):
             else:
                 tab = TABresult(kpoints=[[0, 0, 0], [0, 0, 0.5]], recip_lattice=np.eye(3), mode="grid",
                                 results={"Energy": KBandResult(np.zeros((2, 2)), rank=0), "Q": KBandResult(data, rank=ndim)})
-                tab.grid = np.array([1, 1, 2])
-                tab.gridorder = "C"
-                out = tab.get_data("Q", component=comp)
+                tab = tab.to_grid(np.array([1, 1, 2]), order="C")
+                out = np.asarray(tab.get_data("Q", component=comp))
                 if out.shape[:3] != (1, 1, 2):
                     return "shape", out.shape
                 out = out.reshape((2,) + out.shape[3:])
-    except KB.NoComponentError:
-        return "err", None
+    except Exception as ex:
+        if U.library_site(ex) is None:
+            U.skipped(rep, f"get_component:{how}", ex)
+            return "skipped", None
+        return "raised", ex
     return "ok", np.asarray(out)
 
 
 def cmp_component(got, exp, tol=1e-9):
-    """exp: dict(tag, v) of the specification"""
+    """exp: dict(tag, v) of the specification with tag val / sqrt.  None or a description"""
     kind, arr = got
-    if exp["tag"] == "err":
-        return None if kind == "err" else f"expected NoComponentError, got {kind} {arr}"
     if kind != "ok":
         return f"unexpected {kind} {arr}"
     if arr.shape != (2, 2):
@@ -166,14 +248,22 @@ def cmp_component(got, exp, tol=1e-9):
     S = np.array(SC, dtype=float)
     v = exp["v"]
     if exp["tag"] == "val":
-        e = v * S
-        e2 = v * S * S          # 'sq' is quadratic in the data; decided by the caller through exp['quad']
-        e = e2 if exp.get("quad") else e
+        e = v * S * S if exp.get("quad") else v * S          # 'sq' is quadratic in the data
     else:
         e = math.sqrt(v) * np.abs(S)
-    if np.abs(arr - e).max() > tol * max(1.0, np.abs(e).max()):
+    if not np.abs(arr - e).max() <= tol * max(1.0, np.abs(e).max()):
         return f"{arr.tolist()} instead of {e.tolist()}"
     return None
+
+
+def comp_of_list_entry(x):
+    """an entry of get_component_list -> the specification's component record"""
+    if x is None:
+        return dict(kind="none", c=[])
+    s = str(x)
+    if s and all(ch in "xyz" for ch in s):
+        return dict(kind="xyz", c=list(s))
+    return dict(kind="name", c=[s])
 
 
 # ---------------------------------------------------------------- configurations
@@ -190,46 +280,64 @@ def cfg_component(e0, e1, e2):
             + "".join(f"INVARIANT {i}\n" for i in inv) + "CHECK_DEADLOCK FALSE\n")
 
 
+def all_planes(pts, g, m):
+    return all(any((p[c] - v * m[c]) % (g[c] * m[c]) == 0 for p in pts) for c in range(3) for v in range(g[c]))
+
+
 def replay_togrid(rep, st, rng, counts):
     n = 0
+    nrs = np.random.RandomState(rng.randrange(1 << 30))
     for s in U.states_where(st):
         n += 1
         g, m, pts, vals, out, fg = s["g"], s["m"], s["pts"], s["vals"], s["out"], s["fg"]
         M = [a * b for a, b in zip(g, m)]
         ngrid = g[0] * g[1] * g[2]
         on = [all(p[c] % m[c] == 0 for c in range(3)) for p in pts]
-        cls = "error" if out["err"] else ("duplicate" if sum(on) > ngrid else "complete")
+        cls = "missing" if out["err"] else ("duplicate" if sum(on) > ngrid else "complete")
         if not all(on):
             cls += ":offgrid"
         if any(not (0 <= p[c] < M[c]) for p in pts for c in range(3)):
             cls += ":shifted"
+        noisy = rng.random() < 0.33
         counts[cls] = counts.get(cls, 0) + 1
-        rep.case(("to_grid", g, m, pts), nontrivial=ngrid > 1)
-        detail = dict(grid=list(g), mesh=M, kpoints_int=[list(p) for p in pts], values=list(vals), band_weights=list(BW))
-        tab = make_tab(pts, M, vals)
-        # find_grid
-        with quiet():
-            got_fg = [int(x) for x in tab.find_grid]
-        if got_fg != list(fg):
-            rep.violation("find_grid", dict(detail, expected=list(fg), got=got_fg))
-        err, res = call_to_grid(tab, g)
-        if err != out["err"]:
-            rep.violation("to_grid:missing_point" if out["err"] else "to_grid:unexpected_error", dict(detail, expected_error=out["err"], got_error=err))
+        if noisy:
+            counts["with_noise"] = counts.get("with_noise", 0) + 1
+        rep.case(("to_grid", g, m, pts, noisy), nontrivial=ngrid > 1)
+        detail = dict(grid=list(g), mesh=M, kpoints_int=[list(p) for p in pts], values=list(vals), band_weights=list(BW), kpoint_noise=NOISE if noisy else 0)
+        tab0 = build_tab(rep, pts, M, vals)
+        tab = build_tab(rep, pts, M, vals, noise=nrs) if noisy else tab0
+        if tab0 is None or tab is None:
             continue
-        if not err:
-            bad = cmp_grid_result(res, g, out["data"])
-            if bad:
-                rep.violation("to_grid:values", dict(detail, what=bad, expected_sum_count=[list(x) for x in out["data"]]))
-        # self_to_grid = to_grid(find_grid)
-        if list(fg) == list(g) and all(on):
-            tab2 = make_tab(pts, M, vals)
-            err2, res2 = call_to_grid(tab2, g, self_mode=True)
-            if err2 != out["err"]:
-                rep.violation("self_to_grid:error", dict(detail, expected_error=out["err"], got_error=err2))
-            elif not err2:
-                bad = cmp_grid_result(res2, g, out["data"])
-                if bad:
-                    rep.violation("self_to_grid:values", dict(detail, what=bad))
+        # find_grid: decides only where the point set has every plane of the grid and no off-grid point
+        recover = all(on) and all_planes(pts, g, m)
+        try:
+            with quiet():
+                got_fg = real_find_grid(tab0)
+        except Exception as ex:
+            if U.library_site(ex) is None:
+                U.skipped(rep, "find_grid", ex)
+            elif recover:
+                rep.violation(f"raises:find_grid:{type(ex).__name__}", dict(detail, exception=repr(ex)[:300]))
+            else:
+                U.info(rep, "info_find_grid", f"incomplete_set_raises_{type(ex).__name__}")
+            got_fg = None
+        if got_fg is not None:
+            if recover:
+                counts["find_grid_recovers"] = counts.get("find_grid_recovers", 0) + 1
+                if got_fg != list(g):
+                    rep.violation("find_grid:does_not_recover_grid", dict(detail, expected=list(g), got=got_fg))
+            else:
+                U.info(rep, "info_find_grid", "incomplete_set_as_specified" if got_fg == list(fg) else "incomplete_set_other_value")
+        status, res = call_to_grid(rep, tab, g)
+        if status != "skipped":
+            counts["to_grid"] = counts.get("to_grid", 0) + 1
+        judge_grid(rep, "to_grid", status, res, g, out, detail)
+        # self_to_grid = to_grid(find_grid) where find_grid recovers the grid
+        if recover:
+            tab2 = build_tab(rep, pts, M, vals)
+            if tab2 is not None:
+                status, res = call_to_grid(rep, tab2, g, self_mode=True)
+                judge_grid(rep, "self_to_grid", status, res, g, out, detail)
         if n <= 2:
             rep.sample(dict(fn="TABresult.to_grid", **detail, expected=dict(err=out["err"], sum_count=[list(x) for x in out["data"]])))
     return n
@@ -244,14 +352,26 @@ def replay_component(rep, st, rng, counts, prob=1.0):
             out["quad"] = True
         cls = f"rank{ndim}:{comp['kind']}:{out['tag']}"
         counts[cls] = counts.get(cls, 0) + 1
-        rep.case(("component", ndim, T, comp["kind"], comp["c"]), nontrivial=True)
+        rep.case(("component", ndim, T, comp["kind"], comp["c"]), nontrivial=out["tag"] != "err")
         pc = py_component(comp, rng)
         hows = ["function", "method"] + (["get_data"] if pc is not None else [])
         for how in hows:
-            bad = cmp_component(call_component(ndim, T, pc, how), out)
+            got = call_component(rep, ndim, T, pc, how)
+            if got[0] == "skipped":
+                continue
+            counts["calls"] = counts.get("calls", 0) + 1
+            key = f"get_component:{how}:{comp['kind']}" + (":" + "".join(comp["c"]) if comp["kind"] == "name" else "")
+            detail = dict(rank=ndim, tensor=T, component=pc, scale=SC, expected=out)
+            if out["tag"] == "err":
+                # the component does not exist: any exception will do; a returned value is information
+                U.info(rep, "info_no_such_component", f"raises_{type(got[1]).__name__}" if got[0] == "raised" else "returns_a_value")
+                continue
+            if got[0] == "raised":
+                rep.violation(f"raises:get_component:{type(got[1]).__name__}", dict(detail, how=how, exception=repr(got[1])[:300]))
+                continue
+            bad = cmp_component(got, out)
             if bad:
-                rep.violation(f"get_component:{how}:{comp['kind']}" + (":" + "".join(comp["c"]) if comp["kind"] == "name" else ""),
-                              dict(rank=ndim, tensor=T, component=pc, scale=SC, expected=out, what=bad))
+                rep.violation(key, dict(detail, what=bad))
         if n <= 2 or (ndim == 2 and counts[cls] == 1 and comp["kind"] == "name"):
             rep.sample(dict(fn="get_component", rank=ndim, tensor=T, component=pc, expected=out))
     return n
@@ -264,15 +384,107 @@ def rand_tensor(rng, rank):
     return [rand_tensor(rng, rank - 1) for _ in range(3)]
 
 
+def component_record(rep, rng, ndim, T, comp, how):
+    """one recorded get_component call (None: nothing to record)"""
+    pc = py_component(comp, rng)
+    kind, arr = call_component(rep, ndim, T, pc, how)
+    S = np.array(SC, dtype=float)
+    if kind == "skipped":
+        return None
+    if kind == "raised":
+        return dict(fn="component", ndim=ndim, T=T, kind=comp["kind"], c=comp["c"], tag="err", v=0, exception=type(arr).__name__)
+    if kind != "ok" or arr.shape != (2, 2) or not np.all(np.isfinite(arr)):
+        return dict(fn="component", ndim=ndim, T=T, kind=comp["kind"], c=comp["c"], tag="shape", v=0, got=str(arr))
+    if comp["kind"] == "name" and comp["c"] == ["norm"]:
+        q, tag = (arr / np.abs(S)) ** 2, "sqrt"
+    elif comp["kind"] == "name" and comp["c"] == ["sq"]:
+        q, tag = arr / (S * S), "val"
+    else:
+        q, tag = arr / S, "val"
+    v = int(round(q[0, 0]))
+    if np.abs(q - v).max() > 1e-9 * max(1, abs(v)):
+        return dict(fn="component", ndim=ndim, T=T, kind=comp["kind"], c=comp["c"], tag="nonlinear", v=0, got=arr.tolist())
+    return dict(fn="component", ndim=ndim, T=T, kind=comp["kind"], c=comp["c"], tag=tag, v=v)
+
+
+def comp_ok(ndim, comp):
+    """CompOK of the specification"""
+    k, c = comp["kind"], comp["c"]
+    if k == "tuple":
+        return len(c) == ndim
+    if k == "none":
+        return ndim <= 1
+    if k == "xyz":
+        return ndim <= 1 or len(c) == ndim
+    return ndim <= 1 or c == ["trace"]
+
+
+def spec_says_error(ndim, comp):
+    """GetComponent of the specification = NoComponent (inside CompOK)"""
+    k, c = comp["kind"], comp["c"]
+    if k == "tuple":
+        return False
+    if ndim == 0:
+        return k != "none"
+    if ndim == 1:
+        return not ((k == "xyz" and len(c) == 1) or (k == "name" and c in (["norm"], ["sq"])))
+    return False
+
+
+def complist_records(rep, rng, recs):
+    """K__Result.get_component_list of the real class for ranks 0..3 + the extraction of every entry"""
+    from wannierberri.result import KBandResult
+    n = 0
+    for ndim in (0, 1, 2, 3):
+        T = rand_tensor(rng, ndim)
+        data = np.array(SC, dtype=float).reshape((2, 2) + (1,) * ndim) * np.array(T, dtype=float)[None, None]
+        try:
+            with quiet():
+                lst = list(KBandResult(data, rank=ndim).get_component_list())
+        except Exception as ex:
+            if U.library_site(ex) is None:
+                U.skipped(rep, "get_component_list", ex)
+                return n
+            rep.violation(f"raises:get_component_list:{type(ex).__name__}", dict(rank=ndim, exception=repr(ex)[:300]))
+            continue
+        rep.case(("complist", ndim))
+        entries = [comp_of_list_entry(x) for x in lst]
+        recs.append(dict(fn="complist", ndim=ndim, out=entries, raw=[str(x) for x in lst]))
+        n += 1
+        for x, comp in zip(lst, entries):
+            if not comp_ok(ndim, comp):
+                continue            # reported by the complist record (not in ComponentList)
+            kind, arr = call_component(rep, ndim, T, x, "method")
+            if kind == "raised":
+                rep.violation("get_component_list:entry_cannot_be_extracted", dict(rank=ndim, tensor=T, component=x, exception=repr(arr)[:300]))
+                continue
+            r = component_record(rep, None, ndim, T, comp, "method")
+            if r is not None:
+                recs.append(r)
+    return n
+
+
+def slot_vals(rng, g):
+    return [rng.randint(-20, 20) for _ in range(g[0] * g[1] * g[2])]
+
+
 def random_records(rep, rng, nrec):
     recs = []
+    nrs = np.random.RandomState(rng.randrange(1 << 30))
+    complist_records(rep, rng, recs)
+    tries = 0
     while len(recs) < nrec:
+        tries += 1
+        if tries > 40 * nrec + 1000:
+            raise MachineryError(f"random_records: only {len(recs)} of {nrec} records after {tries} attempts")
         r = rng.random()
         if r < 0.5:
             g = [rng.randint(1, 4), rng.randint(1, 3), rng.randint(1, 5)]
             m = rng.choice([[1, 1, 1], [1, 1, 1], [2, 1, 1], [1, 3, 2]])
             M = [a * b for a, b in zip(g, m)]
             full = [[a * m[0], b * m[1], c * m[2]] for a in range(g[0]) for b in range(g[1]) for c in range(g[2])]
+            sv = slot_vals(rng, g)          # all images of one grid point carry the same value
+            val_of = {tuple(p): sv[s] for s, p in enumerate(full)}
             rng.shuffle(full)
             pts = list(full)
             what = rng.random()
@@ -283,29 +495,55 @@ def random_records(rep, rng, nrec):
             elif what < 0.6:
                 for _ in range(rng.randint(1, 4)):
                     pts.insert(rng.randrange(len(pts) + 1), list(rng.choice(full)))
+            vals = [val_of[tuple(p)] for p in pts]
             if m != [1, 1, 1] and rng.random() < 0.5:
-                pts.insert(rng.randrange(len(pts) + 1), [rng.choice(full)[0] + 1, 0, 1])
+                j = rng.randrange(len(pts) + 1)
+                pts.insert(j, [rng.choice(full)[0] + 1, 0, 1])
+                vals.insert(j, rng.randint(30, 50))
             pts = [[p[c] + M[c] * rng.choice([0, 0, 0, 1, -1, 2]) for c in range(3)] for p in pts]
-            vals = [rng.randint(-20, 20) for _ in pts]
-            tab = make_tab(pts, M, vals)
-            err, res = call_to_grid(tab, g)
-            rec = dict(fn="to_grid", g=g, m=m, pts=pts, vals=vals, err=err, out=[], knew=[], shape=[])
-            if not err:
-                with quiet():
-                    E = res.get_data("Energy", iband=0)
-                flat = E.reshape(-1)            # C order
-                fr = [U.rat(x, maxden=64) for x in flat]
-                kn = np.asarray(res.kpoints) * np.array(g)[None, :]
-                if any(f is None for f in fr) or np.abs(kn - np.rint(kn)).max() > 1e-9:
-                    rep.violation("to_grid:nonrational", dict(g=g, pts=pts, vals=vals, got=flat.tolist()))
+            noisy = rng.random() < 0.3
+            tab = build_tab(rep, pts, M, vals, noise=nrs if noisy else None)
+            if tab is None:
+                raise MachineryError("TABresult cannot be built the way the harness builds it (see skipped_private)")
+            status, res = call_to_grid(rep, tab, g)
+            if status == "skipped":
+                raise MachineryError("TABresult.to_grid cannot be called the way the harness calls it (see skipped_private)")
+            rec = dict(fn="to_grid", g=g, m=m, pts=pts, vals=vals, err="", raised=status == "raised", out=[], knew=[], shape=[], noisy=noisy)
+            if status == "raised":
+                rec.update(err="missing", exception=type(res).__name__)
+            else:
+                try:
+                    with quiet():
+                        E = np.asarray(res.get_data("Energy", iband=0), dtype=float)
+                    kn = np.asarray(res.kpoints, dtype=float) * np.array(g)[None, :]
+                except Exception as ex:
+                    if U.library_site(ex) is None:
+                        U.skipped(rep, "get_data", ex)
+                        raise MachineryError("TABresult.get_data cannot be called the way the harness calls it (see skipped_private)")
+                    rep.violation(f"raises:get_data:{type(ex).__name__}", dict(g=g, pts=pts, exception=repr(ex)[:300]))
                     continue
-                rec.update(out=[[f.numerator, f.denominator] for f in fr], knew=[[int(x) for x in np.rint(k)] for k in kn], shape=list(E.shape))
+                flat = E.reshape(-1)            # C order
+                fr = [None if np.isnan(x) else U.rat(x, maxden=64) for x in flat]
+                if any(f is None and not np.isnan(x) for f, x in zip(fr, flat)) or kn.ndim != 2 or not np.all(np.isfinite(kn)) or np.abs(kn - np.rint(kn)).max() > 1e-9:
+                    rep.violation("to_grid:values", dict(g=g, pts=pts, vals=vals, got=flat.tolist(), what="not averages of the integer data / k-points not grid points"))
+                    continue
+                rec.update(out=[[0, 0] if f is None else [f.numerator, f.denominator] for f in fr],
+                           knew=[[int(x) % g[c] for c, x in enumerate(np.rint(k))] for k in kn], shape=list(E.shape),
+                           err="missing" if any(f is None for f in fr) else "")
             recs.append(rec)
-            rep.case(("rec_to_grid", tuple(g), tuple(m), repr(pts)))
+            rep.case(("rec_to_grid", tuple(g), tuple(m), repr(pts), noisy))
             # find_grid of the same point set (when inside its domain)
             if not find_grid_tie(pts, M):
-                with quiet():
-                    fgr = [int(x) for x in make_tab(pts, M, vals).find_grid]
+                tab1 = build_tab(rep, pts, M, vals)
+                try:
+                    with quiet():
+                        fgr = real_find_grid(tab1)
+                except Exception as ex:
+                    if U.library_site(ex) is None:
+                        U.skipped(rep, "find_grid", ex)
+                    elif all_planes(pts, g, m) and all(all(p[c] % m[c] == 0 for c in range(3)) for p in pts):
+                        rep.violation(f"raises:find_grid:{type(ex).__name__}", dict(g=g, pts=pts, exception=repr(ex)[:300]))
+                    continue
                 recs.append(dict(fn="find_grid", g=g, m=m, pts=pts, out=fgr))
                 rep.case(("rec_find_grid", tuple(g), tuple(m), repr(pts)))
         else:
@@ -323,26 +561,21 @@ def random_records(rep, rng, nrec):
                 kinds += [dict(kind="xyz", c=[rng.choice("xyz") for _ in range(ndim + 1)])]
                 kinds += [dict(kind="xyz", c=[rng.choice("xyz") for _ in range(rng.randint(1, 3))])]
             comp = rng.choice(kinds)
-            pc = py_component(comp, rng)
-            kind, arr = call_component(ndim, T, pc, rng.choice(["function", "method"]))
-            S = np.array(SC, dtype=float)
-            if kind == "err":
-                tag, v = "err", 0
-            elif kind != "ok" or arr.shape != (2, 2):
-                rep.violation("get_component:shape", dict(rank=ndim, tensor=T, component=pc, got=str(arr)))
-                continue
-            else:
-                if comp["kind"] == "name" and comp["c"] == ["norm"]:
-                    q, tag = (arr / np.abs(S)) ** 2, "sqrt"
-                elif comp["kind"] == "name" and comp["c"] == ["sq"]:
-                    q, tag = arr / (S * S), "val"
-                else:
-                    q, tag = arr / S, "val"
-                v = int(round(q[0, 0]))
-                if np.abs(q - v).max() > 1e-9 * max(1, abs(v)):
-                    rep.violation("get_component:not_linear_in_data", dict(rank=ndim, tensor=T, component=pc, got=arr.tolist(), scale=SC))
+            rec = component_record(rep, rng, ndim, T, comp, rng.choice(["function", "method"]))
+            if rec is None:
+                raise MachineryError("get_component cannot be called the way the harness calls it (see skipped_private)")
+            if spec_says_error(ndim, comp):
+                # a component that does not exist: any exception will do; a value is information, nothing is recorded
+                U.info(rep, "info_no_such_component", f"raises_{rec['exception']}" if rec["tag"] == "err" else "returns_a_value")
+                if rec["tag"] != "err":
                     continue
-            recs.append(dict(fn="component", ndim=ndim, T=T, kind=comp["kind"], c=comp["c"], tag=tag, v=v))
+            elif rec["tag"] == "err":
+                rep.violation(f"raises:get_component:{rec['exception']}", dict(rank=ndim, tensor=T, component=comp))
+                continue
+            elif rec["tag"] in ("shape", "nonlinear"):
+                rep.violation("get_component:" + ("shape" if rec["tag"] == "shape" else "not_linear_in_data"), dict(rank=ndim, tensor=T, component=comp, got=rec.get("got"), scale=SC))
+                continue
+            recs.append(rec)
             rep.case(("rec_component", ndim, repr(T), comp["kind"], tuple(comp["c"])))
     return recs
 
@@ -356,40 +589,76 @@ def find_grid_tie(pts, M):
     return False
 
 
+def duplicates_info(rep):
+    """information: what to_grid does with two images of one grid point that carry DIFFERENT values (in the deciding
+    cases all images agree, as symmetry images do)"""
+    tab = build_tab(rep, [[0, 0, 0], [0, 0, 1], [0, 0, 0]], [1, 1, 2], [3, 10, 7])
+    if tab is None:
+        return
+    status, res = call_to_grid(rep, tab, [1, 1, 2])
+    rule = status
+    if status == "ok":
+        try:
+            with quiet():
+                v = float(np.asarray(res.get_data("Energy", iband=0)).reshape(-1)[0])
+            rule = {5.0: "mean of the images (3, 7) -> 5", 3.0: "first image", 7.0: "last image"}.get(v, f"value {v}")
+        except Exception as ex:
+            rule = f"get_data raises {type(ex).__name__}"
+    rep.part("info_duplicates", images_with_different_values=rule)
+
+
 # ---------------------------------------------------------------- the check
 def check(pid, tier):
     rep = Report(pid, tier, "model_checking")
+    scr = U.Scratch(pid)
+    try:
+        return _check(rep, scr, tier)
+    except Exception:
+        if rep.violations:          # never lose what was already found
+            rep.finish()
+        raise
+    finally:
+        scr.cleanup()
+
+
+def _check(rep, scr, tier):
     thorough = tier == "thorough"
     rng = random.Random(seed() * 7919 + 30)
     rep.rule("TLC enumerates (a) grids x arrival orders x {complete, shifted, missing, duplicated, off-grid} point lists, (b) tensors of rank "
              "0..2 x component specifications; a case = one finished TLC state replayed on real TABresult/KBandResult objects with integer data "
-             "(exact comparison) or one seeded random recorded call validated by TLC; distinct by input tuple")
-    rep.assume("data are small integers times integer band/component weights, k-points are i/N: the float results are exact to 1e-13 "
-               "(tolerance 1e-9)")
+             "(exact comparison; states sorted, so the cases depend on VERIF_SEED only) or one seeded random recorded call validated by TLC; "
+             "distinct by input tuple")
+    rep.assume("data are small integers times integer band/component weights, k-points are i/N (a third of them moved by <= 1e-12): the float "
+               "results are exact to 1e-13 (tolerance 1e-9)")
     rep.assume("find_grid inputs whose 1/dk is exactly half-way between integers (FindGridTie) are excluded: the code rounds a float there")
+    rep.assume("all images of one grid point carry the same value in the deciding cases (symmetry / periodic images)")
 
     # ---------------- spec: to_grid
     counts = {}
     name = "c30_togrid"
     cfg = cfg_togrid("GridsMid", 4, "MultsTwo") if thorough else cfg_togrid("GridsQuick", 3, "MultsTwo")
-    st = ftable.enumerate_states("MC_ToGrid.tla", cfg, name, workers=W, timeout=3000)
+    st = ftable.enumerate_states("MC_ToGrid.tla", cfg, scr.tlc("togrid"), workers=W, timeout=3000)
     facts = None
     if not ftable.spec_violation(rep, st, name):
         tlc.check_not_vacuous(st, ["OnGridPoint", "OffGridPoint", "CollectAll"], name)
         rep.add_tlc(name, st)
         n = replay_togrid(rep, st, rng, counts)
         rep.part(name, replayed=n, **counts)
-        for cls in ("complete", "duplicate", "error", "complete:shifted"):
-            if counts.get(cls, 0) == 0:
-                raise MachineryError(f"to_grid: no replayed case of class {cls}")
-        if not any("offgrid" in k for k in counts):
-            raise MachineryError("to_grid: no replayed case with an off-grid point")
+        if not U.was_skipped(rep, "TABresult", "to_grid"):
+            for cls in ("complete", "duplicate", "missing", "complete:shifted", "with_noise", "to_grid"):
+                if counts.get(cls, 0) == 0:
+                    raise MachineryError(f"to_grid: no replayed case of class {cls}")
+            if not any("offgrid" in k for k in counts):
+                raise MachineryError("to_grid: no replayed case with an off-grid point")
+            if counts.get("find_grid_recovers", 0) == 0 and not U.was_skipped(rep, "find_grid"):
+                raise MachineryError("find_grid: no replayed case with a complete point set")
         pr = re.search(r'<<\s*"FACT",\s*("(?:[^"\\]|\\.)*")\s*>>', st["output"])
         if not pr:
             raise MachineryError("MC_ToGrid did not print the factorisations")
         facts = tlaparse.parse_value(tlaparse.parse_value(pr.group(1)))
+    duplicates_info(rep)
     # sensitivity: the Fortran-order slot formula must be rejected
-    st0 = tlc.run_tlc("MC_ToGrid.tla", cfg_togrid("GridsQuick", 3, "MultsOne", formula="fortran"), "c30_togrid_v0", workers=W, timeout=900)
+    st0 = tlc.run_tlc("MC_ToGrid.tla", cfg_togrid("GridsQuick", 3, "MultsOne", formula="fortran"), scr.tlc("togrid_v0"), workers=W, timeout=900)
     if not st0.get("violation"):
         raise MachineryError("sensitivity self-test failed: MC_ToGrid with SlotFormula=fortran should violate an invariant")
     rep.part("c30_togrid_v0", sensitivity_violation=st0["violation"][1])
@@ -398,7 +667,7 @@ def check(pid, tier):
     counts = {}
     name = "c30_component"
     cfg = cfg_component("EntriesWide", "EntriesWide", "EntriesSigned") if thorough else cfg_component("EntriesWide", "EntriesSigned", "EntriesSmall")
-    st = ftable.enumerate_states("MC_Component.tla", cfg, name, workers=W, timeout=3000)
+    st = ftable.enumerate_states("MC_Component.tla", cfg, scr.tlc("component"), workers=W, timeout=3000)
     if not ftable.spec_violation(rep, st, name):
         rep.add_tlc(name, st)
         prob = 0.03 if thorough else 1.0
@@ -409,120 +678,159 @@ def check(pid, tier):
         for cls in need:
             if counts.get(cls, 0) == 0:
                 raise MachineryError(f"get_component: no replayed case of class {cls}")
+        if counts.get("calls", 0) == 0 and not U.was_skipped(rep, "get_component:function", "get_component:method", "get_component:get_data"):
+            raise MachineryError("get_component: no call on the real code")
 
     # ---------------- code -> spec : recorded calls validated by TLC
     recs = random_records(rep, rng, 3000 if thorough else 400)
     kinds = {}
     for r in recs:
         kinds[r["fn"]] = kinds.get(r["fn"], 0) + 1
-    stv, bad = ftable.validate_records("ToGridRec.tla", ftable.REC_CFG, recs, "c30")
+    stv, bad = ftable.validate_records("ToGridRec.tla", ftable.REC_CFG, recs, scr.rec("records"))
     rep.add_tlc("c30_records", stv)
     rep.add_traces(len(recs))
-    rep.part("c30_records", **kinds, to_grid_errors=sum(1 for r in recs if r["fn"] == "to_grid" and r["err"]))
-    site = {"to_grid": "to_grid", "find_grid": "find_grid", "component": "get_component"}
-    for i, clauses in bad.items():
+    rep.part("c30_records", **kinds, to_grid_missing=sum(1 for r in recs if r["fn"] == "to_grid" and r["err"]),
+             to_grid_with_noise=sum(1 for r in recs if r["fn"] == "to_grid" and r.get("noisy")))
+    site = {"to_grid": "to_grid", "find_grid": "find_grid", "component": "get_component", "complist": "get_component_list"}
+    for i, clauses in sorted(bad.items()):
         if "in_domain" in clauses:
             raise MachineryError(f"harness generated a record outside the specification's domain: {recs[i]}")
-        rep.violation(f"{site[recs[i]['fn']]}:recorded", dict(record=recs[i], failing_clauses=clauses))
+        for c in clauses:
+            if c.startswith("info_"):
+                U.info(rep, "info_record_clauses", f"{recs[i]['fn']}:{c[5:]}:differs")
+        deciding = [c for c in clauses if not c.startswith("info_")]
+        if deciding:
+            rep.violation(f"{site[recs[i]['fn']]}:recorded", dict(record=recs[i], failing_clauses=deciding))
     rep.sample(recs[0])
     # binding self-test
+
+    def pick(cond, what):
+        for r in recs:
+            if cond(r):
+                return copy.deepcopy(r)
+        raise MachineryError(f"binding self-test: no record with {what} among {len(recs)} records (seed {seed()})")
     cor = []
-    r0 = copy.deepcopy(next(r for r in recs if r["fn"] == "to_grid" and not r["err"] and len(r["out"]) > 2 and r["out"][0] != r["out"][1]))
+    r0 = pick(lambda r: r["fn"] == "to_grid" and not r["err"] and len(r["out"]) > 2 and r["out"][0] != r["out"][1], "a complete to_grid result with two different values")
     r0["out"][0], r0["out"][1] = r0["out"][1], r0["out"][0]
     cor.append(r0)
-    r1 = copy.deepcopy(next(r for r in recs if r["fn"] == "component" and r["tag"] == "val" and r["ndim"] == 2 and r["kind"] == "xyz"))
+    r1 = pick(lambda r: r["fn"] == "component" and r["tag"] == "val" and r["ndim"] == 2 and r["kind"] == "xyz", "a rank-2 xyz component")
     r1["v"] += 1
     cor.append(r1)
-    r2 = copy.deepcopy(next(r for r in recs if r["fn"] == "to_grid" and r["err"]))
-    r2["err"] = ""
-    r2["out"] = [[1, 1]] * (r2["g"][0] * r2["g"][1] * r2["g"][2])
-    r2["knew"] = [[s // (r2["g"][1] * r2["g"][2]), (s // r2["g"][2]) % r2["g"][1], s % r2["g"][2]] for s in range(len(r2["out"]))]
-    r2["shape"] = r2["g"]
+    r2 = pick(lambda r: r["fn"] == "to_grid" and r["err"], "a to_grid call with a missing point")
+    ng = r2["g"][0] * r2["g"][1] * r2["g"][2]
+    r2.update(err="", raised=False, out=[[1, 1]] * ng, shape=r2["g"],
+              knew=[[s // (r2["g"][1] * r2["g"][2]), (s // r2["g"][2]) % r2["g"][1], s % r2["g"][2]] for s in range(ng)])
     cor.append(r2)
-    _, b2 = ftable.validate_records("ToGridRec.tla", ftable.REC_CFG, cor, "c30_selftest")
-    if sorted(b2) != [0, 1, 2]:
-        raise MachineryError(f"binding self-test failed: corrupted records accepted ({sorted(b2)})")
-    rep.part("binding_selftest", corrupted_records_rejected={str(k): v for k, v in b2.items()})
+    r3 = pick(lambda r: r["fn"] == "complist" and r["ndim"] == 2, "the component list of rank 2")
+    r3["out"] = r3["out"][1:]
+    cor.append(r3)
+    r4 = pick(lambda r: r["fn"] == "find_grid" and r["m"] == [1, 1, 1] and all_planes(r["pts"], r["g"], r["m"]) and max(r["g"]) > 1, "a find_grid call on a complete set")
+    r4["out"] = [x + 1 for x in r4["out"]]
+    cor.append(r4)
+    _, b2 = ftable.validate_records("ToGridRec.tla", ftable.REC_CFG, cor, scr.rec("selftest"))
+    rejected = sorted(i for i, cl in b2.items() if any(not c.startswith("info_") for c in cl))
+    if rejected != list(range(len(cor))):
+        raise MachineryError(f"binding self-test failed: corrupted records accepted (rejected: {rejected} of {len(cor)})")
+    rep.part("binding_selftest", corrupted_records_rejected={str(k): [c for c in v if not c.startswith("info_")] for k, v in b2.items()})
 
     # ---------------- end to end (numeric): run() + TabulatorAll(mode='grid') vs evaluate_k at every grid point
     if facts is not None:
-        numeric_grid(rep, rng, facts, thorough)
+        numeric_grid(rep, scr, rng, facts, thorough)
     return rep.finish()
 
 
 C4Z = [[0, -1, 0], [1, 0, 0], [0, 0, 1]]
 C2Z = [[-1, 0, 0], [0, -1, 0], [0, 0, 1]]
 INV = [[-1, 0, 0], [0, -1, 0], [0, 0, -1]]
+C6Z_HEX = [[1, -1, 0], [1, 0, 0], [0, 0, 1]]        # 60 degrees about z on a1 = (1,0,0), a2 = (-1/2, sqrt(3)/2, 0): a1 -> a1+a2, a2 -> -a1
+TETRA = [[1.0, 0, 0], [0, 1.0, 0], [0, 0, 1.3]]
+HEX = [[1.0, 0, 0], [-0.5, math.sqrt(3) / 2, 0], [0, 0, 1.2]]
 
 
-def numeric_grid(rep, rng, facts, thorough):
+def numeric_grid(rep, scr, rng, facts, thorough):
     import wannierberri as wb
     from wannierberri import calculators as calc
-    which = ("Energy", "berry", "vel")
+    which = U.WHICH
     tol = 1e-8
-    wd = workdir("c30_run")
+    wd = scr.workdir("run")
     maxdev = 0.0
     nruns = 0
-    # (grid, generators in reduced coordinates, names for set_pointgroup, lattice)
-    setups = [((2, 2, 3), None, None), ((2, 2, 3), [C4Z, INV], ["C4z", "Inversion"])]
+    kinds = {}
+    # (name, grid, generators in reduced coordinates (hoppings invariant), names for set_pointgroup, lattice, real hoppings, NKdiv[0] = NKdiv[1] demanded)
+    setups = [("nosym", (2, 2, 3), None, None, None, False, False),
+              ("C4z+Inversion", (2, 2, 3), [C4Z, INV], ["C4z", "Inversion"], TETRA, False, True),
+              ("TimeReversal", (2, 2, 3), None, ["TimeReversal"], None, True, False),
+              ("hex:C6z", (3, 3, 1), [C6Z_HEX], ["C6z"], HEX, False, True)]
     if thorough:
-        setups += [((1, 2, 3), None, None), ((3, 2, 1), [C2Z, INV], ["C2z", "Inversion"]), ((2, 3, 2), [C2Z], ["C2z"]), ((3, 3, 1), [C4Z, INV], ["C4z", "Inversion"])]
-    for g, gens, names in setups:
+        setups += [("nosym", (1, 2, 3), None, None, None, False, False),
+                   ("C2z+Inversion", (3, 2, 1), [C2Z, INV], ["C2z", "Inversion"], TETRA, False, False),
+                   ("C2z", (2, 3, 2), [C2Z], ["C2z"], TETRA, False, False),
+                   ("C4z+Inversion", (3, 3, 1), [C4Z, INV], ["C4z", "Inversion"], TETRA, False, True),
+                   ("C4z+TimeReversal", (4, 4, 2), [C4Z], ["C4z", "TimeReversal"], TETRA, True, True),
+                   ("hex:C6z", (2, 2, 3), [C6Z_HEX], ["C6z"], HEX, False, True)]
+    for sname, g, gens, names, lat, real, symdiv in setups:
         if tuple(g) not in facts:
             raise MachineryError(f"grid {g} is not among the grids of MC_ToGrid")
         fl = sorted((tuple(d), tuple(f)) for d, f in facts[tuple(g)])
+        full = gens is None and not real            # random Wannier centres, AA matrix and external terms
+        kpts = [(i0, i1, i2) for i0 in range(g[0]) for i1 in range(g[1]) for i2 in range(g[2])]
         for _try in range(60):
-            system = U.random_system(rng, nw=3, generators=gens, lattice=np.diag([1.0, 1.0, 1.3]) if gens else None)
+            system = U.random_system(rng, nw=3, generators=gens, lattice=lat, real=real, centres=full, aa=full)
             if names:
                 with quiet():
                     system.set_pointgroup(names)
-            kpts = [(i0, i1, i2) for i0 in range(g[0]) for i1 in range(g[1]) for i2 in range(g[2])]
-            single = {k: U.eval_point(system, np.array(k) / np.array(g), which) for k in kpts}
+            single = {k: U.eval_point(system, np.array(k) / np.array(g), which, external=full) for k in kpts}
             gap = min(float(np.min(np.diff(s["Energy"]))) for s in single.values())
             if gap >= GAP_MIN:  # per-band quantities are ill-conditioned near degeneracies (error ~ eps/gap^3): take another model
                 break
         else:
             raise MachineryError("no random model without near-degenerate bands on the grid")
-        if names and (C4Z in gens):
-            fl = [(d, f) for d, f in fl if d[0] == d[1]]       # Grid() demands symmetric NKdiv / NKFFT
-        if not thorough:
-            fl = [fl[0], fl[-1]] + rng.sample(fl[1:-1], min(2, len(fl) - 2))
+        if symdiv:
+            fl = [(d, f) for d, f in fl if d[0] == d[1]]       # Grid() demands NKdiv / NKFFT compatible with a rotation that mixes the axes
+        if not thorough and len(fl) > 4:
+            fl = [fl[0], fl[-1]] + rng.sample(fl[1:-1], 2)
         for div, fft in fl:
             for sym in ([False, True] if names else [False]):
                 ib = rng.choice([None, [0, 2]])
-                with quiet(), warnings.catch_warnings():
-                    warnings.simplefilter("ignore")
-                    grid = wb.Grid(system, NKdiv=list(div), NKFFT=list(fft))
-                    tall = calc.TabulatorAll(U.tab_calculators(which), ibands=ib, mode="grid")
-                    res = wb.run(system, grid=grid, calculators={"tab": tall}, parallel=False, use_irred_kpt=sym, symmetrize=sym,
-                                 fout_name=wd + "/r").results["tab"]
-                nruns += 1
                 bands = [0, 1, 2] if ib is None else ib
-                detail = dict(grid=list(g), NKdiv=list(div), NKFFT=list(fft), symmetry=names if sym else None, ibands=ib)
-                rep.case(("tab_grid", g, div, fft, sym, repr(ib), repr(names)))
-                if res.grid is None or tuple(int(x) for x in res.grid) != tuple(g):
-                    rep.violation("tabulate_grid:grid", dict(detail, got=None if res.grid is None else [int(x) for x in res.grid]))
+                detail = dict(setup=sname, grid=list(g), NKdiv=list(div), NKFFT=list(fft), symmetry=names if sym else None, ibands=ib)
+
+                def run_it():
+                    with quiet(), warnings.catch_warnings():
+                        warnings.simplefilter("ignore")
+                        grid = wb.Grid(system, NKdiv=list(div), NKFFT=list(fft))
+                        tall = calc.TabulatorAll(U.tab_calculators(which, external=full), ibands=ib, mode="grid")
+                        return wb.run(system, grid=grid, calculators={"tab": tall}, parallel=False, use_irred_kpt=sym, symmetrize=sym,
+                                      fout_name=wd + "/r").results["tab"]
+                rep.case(("tab_grid", sname, g, div, fft, sym, repr(ib)))
+                ok, res = U.guarded(rep, "run_grid", detail, run_it)
+                if not ok:
                     continue
-                kn = np.asarray(res.kpoints) * np.array(g)[None, :]
-                if kn.shape != (len(kpts), 3) or np.abs(kn - np.array(kpts)).max() > 1e-9:
+                nruns += 1
+                kinds[sname + (":irred" if sym else "")] = kinds.get(sname + (":irred" if sym else ""), 0) + 1
+                kn = np.asarray(res.kpoints, dtype=float) * np.array(g)[None, :]
+                if kn.shape != (len(kpts), 3) or not np.all(np.isfinite(kn)) or np.abs((kn - np.array(kpts) + np.array(g) / 2) % np.array(g) - np.array(g) / 2).max() > 1e-9:
                     rep.violation("tabulate_grid:kpoints_not_C_order", dict(detail, got=np.asarray(res.kpoints).tolist()))
                     continue
                 for q in which:
-                    got = res.get_data(quantity=q)
-                    exp = np.array([single[k][q][bands] for k in kpts]).reshape(tuple(g) + got.shape[3:])
+                    got = np.asarray(res.get_data(quantity=q))
+                    exp = np.array([single[k][q][bands] for k in kpts])
+                    exp = exp.reshape(tuple(g) + exp.shape[1:])
                     if got.shape != exp.shape:
                         rep.violation(f"tabulate_grid:{q}:shape", dict(detail, got=got.shape, expected=exp.shape))
                         continue
-                    dev = float(np.max(np.abs(got - exp)))
-                    maxdev = max(maxdev, dev)
+                    dev = float(np.max(np.abs(got - exp))) if np.all(np.isfinite(got)) else float("inf")
+                    maxdev = max(maxdev, dev if np.isfinite(dev) else 0.0)
                     if dev > tol:
-                        j = np.unravel_index(int(np.argmax(np.max(np.abs(got - exp).reshape(tuple(g) + (-1,)), axis=-1))), tuple(g))
+                        j = np.unravel_index(int(np.argmax(np.max(np.abs(np.nan_to_num(got - exp, nan=np.inf)).reshape(tuple(g) + (-1,)), axis=-1))), tuple(g))
                         rep.violation(f"tabulate_grid:{q}" + (":symmetry" if sym else ""),
                                       dict(detail, grid_point=[int(x) for x in j], maxdiff=dev, tolerance=tol))
-    shutil.rmtree(wd, ignore_errors=True)
+    if nruns == 0 and not U.was_skipped(rep, "run_grid"):
+        raise MachineryError("numeric part: no run")
     rep.assume(f"numeric part: models whose bands come closer than {GAP_MIN} eV on the grid are replaced (per-band quantities are ill-conditioned there)")
-    rep.part("numeric_only", what="run(TabulatorAll(mode='grid')) vs evaluate_k at every grid point (C order): Energy, Berry curvature (internal terms), "
-                                  "velocity; factorisations from TLC; with and without use_irred_kpt/symmetrize",
-             runs=nruns, max_deviation=maxdev, tolerance=tol)
+    rep.part("numeric_only", what="run(TabulatorAll(mode='grid')) vs evaluate_k at every grid point (C order): Energy, Berry curvature, velocity, inverse "
+                                  "mass (rank 2); factorisations from TLC; with and without use_irred_kpt/symmetrize; set-up without symmetry: random "
+                                  "Wannier centres, AA matrix, external terms",
+             runs=nruns, max_deviation=maxdev, tolerance=tol, **kinds)
     if maxdev * 1e4 > tol:
         rep.part("numeric_only", warning="observed deviation is less than 10^4 below the tolerance")
